@@ -211,7 +211,11 @@ class SupervisedSimulation(Environment):
         elif label_type == "c" and isinstance(first_label, Categorical):
             #Handling the categoricals separately allows for a performance optimization
             #since we can use the Categorical's as_int property rather than action_indexes
+            #the levels are kept in their declared order, levels no example carries are not offered
+            rows    = list(rows)
+            present = set(r.label for r in rows) if first_row_type == 0 else set(r[1] for r in rows)
             actions = [ Categorical(l,first_label.levels) for l in first_label.levels ]
+            actions = [ a for a in actions if a in present ]
             reward  = BinaryReward
             self._params['n_actions'] = len(actions)
 
